@@ -143,7 +143,11 @@ def h_fresh(env):
     exp = sm.canon_of_value(cat, "M", {})
     env.check("fresh-reads-defaults", sm.canon_equal(cat, "M", sm.canon_of_bp(cat, "M", m), exp))
     env.check("fresh-nothing-present", presence_report(cat, "M", m) == expected_report(cat, "M", {}))
-    env.check("reading-defaults-does-not-set", bytes(m) == b"")
+    from .c14 import read_all
+
+    read_all(cat, "M", m)  # also reads the fields *inside* lazily created sub-messages
+    env.check("reading-defaults-does-not-set", bytes(m) == b"" and m.__len__() == 0)
+    env.check("still-nothing-present-after-reads", presence_report(cat, "M", m) == expected_report(cat, "M", {}))
     env.observe("bytes", bytes(m))
 
 
